@@ -46,9 +46,12 @@ static void det_case(int n, int g) {
     TR.emit("{\"e\":\"Det\",\"leavesA\":\"%s\",\"leavesB\":\"%s\",\"treeA\":\"%s\",\"treeB\":\"%s\",\"bitsA\":\"%s\",\"bitsB\":\"%s\"}", a.leaves.c_str(), b.leaves.c_str(), a.tree.c_str(), b.tree.c_str(), a.bits.c_str(), b.bits.c_str());
 }
 static void scan_case(int n, int g, int part) {
+    // part >= 2: the body runs a nested parallel_for with static_partitioner (its tasks are mailed to the other threads): the waiting thread may pick up the not yet stolen right sibling of the
+    // subrange it is working on while the left one is still in progress (the 'virtually stolen' case of start_scan)
+    const bool nested = part >= 2; part %= 2;
     std::vector<int> fin(n, 0), pre(n, 0);
     typedef std::vector<int> V;
-    auto scan = [&](const BR& r, V sum, bool is_final) { for (int i = r.begin(); i < r.end(); i++) { if (is_final) { fin[i]++; bool ok = (int)sum.size() == i; for (int k = 0; ok && k < i; k++) ok = sum[k] == k; pre[i] = ok ? 1 : 0; } sum.push_back(i); } return sum; };
+    auto scan = [&](const BR& r, V sum, bool is_final) { if (nested) tbb::parallel_for(tbb::blocked_range<int>(0, 3, 1), [](const tbb::blocked_range<int>&) { for (int k = 0; k < 3; k++) cosched::yield_point(); }, tbb::static_partitioner()); for (int i = r.begin(); i < r.end(); i++) { if (is_final) { fin[i]++; bool ok = (int)sum.size() == i; for (int k = 0; ok && k < i; k++) ok = sum[k] == k; pre[i] = ok ? 1 : 0; } sum.push_back(i); } return sum; };
     auto comb = [](V a, const V& b) { a.insert(a.end(), b.begin(), b.end()); return a; };
     V total = part == 0 ? tbb::parallel_scan(BR(0, n, g), V(), scan, comb, tbb::simple_partitioner()) : tbb::parallel_scan(BR(0, n, g), V(), scan, comb, tbb::auto_partitioner());
     bool tot_ok = (int)total.size() == n; for (int k = 0; tot_ok && k < n; k++) tot_ok = total[k] == k;
@@ -78,7 +81,7 @@ int main(int argc, char** argv) {
     for (int s = 0; s < nseeds; s++) {
         if (mode == "reduce") { for (int n : ns) for (int g : gs) for (int w = 0; w < 5; w++) exec(seed0 + s * 911 + n * 13 + g * 5 + w, dens[(s + w) % 8], [&] { reduce_case(w, n, g); }); }
         else if (mode == "det") { for (int n : ns) for (int g : gs) exec(seed0 + s * 311 + n * 3 + g, dens[s % 8], [&] { det_case(n, g); }); }
-        else if (mode == "scan") { for (int n : ns) for (int g : gs) for (int p = 0; p < 2; p++) exec(seed0 + s * 71 + n + g + p, dens[s % 8], [&] { scan_case(n, g, p); }); }
+        else if (mode == "scan") { for (int n : ns) for (int g : gs) for (int p = 0; p < 4; p++) exec(seed0 + s * 71 + n + g + p, dens[s % 8], [&] { scan_case(n, g, p); }); }
         else { for (int w = 0; w < 7; w++) exec(seed0 + s * 17 + w, dens[s % 8], [&] { sort_case(w, (unsigned)(seed0 + s * 7)); }); }
     }
     TR.close();
